@@ -21,7 +21,8 @@ def emit_table(ctx):
     os.environ['OUT_FILE'] = path
     try:
         ctx.model('ParseModesMC', 'ParseModesMC' if ctx.quick else 'ParseModesMC_thorough',
-                  required=('Pick', 'Embed', 'ParseFaithful', 'ParseDelimited', 'ParseEscape', 'Accept', 'Reject'))
+                  required=('Pick', 'Embed', 'ParseFaithful', 'ParseDelimited', 'ParseEscape', 'Accept', 'Reject'),
+                  heap='3g')
     finally:
         os.environ.pop('OUT_FILE', None)
     if not os.path.exists(path):
@@ -49,7 +50,7 @@ def execute(ctx, table_path, cases, nproc=None, chunk=12):
     def one(b):
         slim = dict(b, traces=[{'id': t['id'], 'steps': [{k: v for k, v in s.items() if k not in ('embs', 'exc')}
                                                          for s in t['steps']]} for t in b['traces']])
-        return b, ctx.validate(slim, module='ParseTrace')
+        return b, ctx.validate(slim, module='ParseTrace', heap='3g')
 
     with cf.ThreadPoolExecutor(max_workers=min(6, len(batches))) as ex:
         for r in ex.map(one, batches):
